@@ -144,7 +144,13 @@ def campaign_placeholders(ck: Check, n: int) -> None:
                 camp.distinct.add(req)
             if any(f[1] == "" and not f[2] for f in nd.fields):
                 camp.hit("has-empty-wire-name-placeholder")
-            if model != impl:
+            # WHICH members a model has after the pass is compared, not their positions: the real pass inserts the copy at the
+            # member's index in the PRE-pass list, which moves it behind later members when earlier placeholders were dropped
+            # (member order is the subject of C05 / C17, not of this model, whose theorems are about membership)
+            same = sorted(map(repr, model)) == sorted(map(repr, impl)) if isinstance(model, list) and isinstance(impl, list) else model == impl
+            if isinstance(model, list) and isinstance(impl, list) and model != impl and same:
+                camp.hit("same-members-other-order")
+            if not same:
                 ck.disagree(camp, {"kind": nd.kind, "fields": nd.fields, "bases": [b.ident for b in nd.bases], "request": req[:600]}, model, impl)
             elif len(camp.samples) < 2 and pend and nd.bases:
                 camp.samples.append({"fields": nd.fields, "after": impl})
